@@ -77,6 +77,36 @@ fn main() {
                 "xadd_auto" => format!("{:?}", e.xadd(db, bytes(&a[0]), std::collections::HashMap::new()).map(|i| (i.millis() > 1_000_000, i.seq()))),
                 "xrange" => format!("{:?}", e.xrange(db, &bytes(&a[0]), ferrous::storage::stream::StreamId::new(int(&a[1]) as u64, int(&a[2]) as u64), ferrous::storage::stream::StreamId::new(int(&a[3]) as u64, int(&a[4]) as u64), None).map(|v| v.iter().map(|x| x.id.to_string()).collect::<Vec<_>>())),
                 "xrevrange" => format!("{:?}", e.xrevrange(db, &bytes(&a[0]), ferrous::storage::stream::StreamId::new(int(&a[1]) as u64, int(&a[2]) as u64), ferrous::storage::stream::StreamId::new(int(&a[3]) as u64, int(&a[4]) as u64), None).map(|v| v.iter().map(|x| x.id.to_string()).collect::<Vec<_>>())),
+                "sweeper_race" => {
+                    // keys of ONE shard get a TTL that passes just before a sweeper pass; writer threads then overwrite
+                    // each key exactly once WITHOUT TTL around the pass. A key missing at the end was deleted by the
+                    // sweeper although it had no TTL any more (collected in the scan phase, overwritten before the delete phase).
+                    let rounds = int(&a[0]) as usize;
+                    let mut missing_total = 0usize;
+                    for _round in 0..rounds {
+                        let eng = StorageEngine::new();
+                        let created = std::time::Instant::now();
+                        // keys in the same shard as "k0": brute-force by probing with a sentinel rename? no: use many keys, all shards
+                        let n = 60000usize;
+                        let keys: Vec<Vec<u8>> = (0..n).map(|i| format!("key:{}", i).into_bytes()).collect();
+                        for k in &keys { eng.set_string_ex(0, k.clone(), b"old".to_vec(), Duration::from_millis(600)).unwrap(); }
+                        // sweeper wakes ~1000 ms after engine creation; start writers shortly before
+                        let wait = Duration::from_millis(940).saturating_sub(created.elapsed());
+                        std::thread::sleep(wait);
+                        let mut hs = Vec::new();
+                        let nthreads = 32usize;
+                        for t in 0..nthreads {
+                            let eng2 = eng.clone();
+                            let ks: Vec<Vec<u8>> = keys.iter().skip(t).step_by(nthreads).cloned().collect();
+                            hs.push(std::thread::spawn(move || { for k in ks { eng2.set_string(0, k, b"live".to_vec()).unwrap(); } }));
+                        }
+                        for h in hs { h.join().unwrap(); }
+                        std::thread::sleep(Duration::from_millis(300));
+                        let missing = keys.iter().filter(|k| !eng.exists(0, k).unwrap()).count();
+                        missing_total += missing;
+                    }
+                    format!("missing_live_keys={}", missing_total)
+                }
                 "persist" => format!("{:?}", e.persist(db, &bytes(&a[0]))),
                 "pttl" => format!("{:?}", e.pttl(db, &bytes(&a[0])).map(|t| if t > 0 { 1 } else { t })),
                 "sleep_ms" => { std::thread::sleep(Duration::from_millis(int(&a[0]) as u64)); "()".into() }
@@ -101,6 +131,7 @@ fn main() {
                 "srandmember" => format!("{:?}", e.srandmember(db, &bytes(&a[0]), int(&a[1])).map(|v| v.len())),
                 "spop" => format!("{:?}", e.spop(db, bytes(&a[0]), int(&a[1]) as usize).map(|v| v.len())),
                 "hset" => format!("{:?}", e.hset(db, bytes(&a[0]), vec![(bytes(&a[1]), bytes(&a[2]))])),
+                "hset_pairs" => format!("{:?}", e.hset(db, bytes(&a[0]), a[1].as_array().unwrap().iter().map(|p| (bytes(&p[0]), bytes(&p[1]))).collect())),
                 "hget" => format!("{:?}", e.hget(db, &bytes(&a[0]), &bytes(&a[1]))),
                 "hincrby" => format!("{:?}", e.hincrby(db, bytes(&a[0]), bytes(&a[1]), int(&a[2]))),
                 "zadd" => format!("{:?}", e.zadd(db, bytes(&a[0]), bytes(&a[1]), f(&a[2]))),
